@@ -423,6 +423,9 @@ def sprinkle(rng, case, rows_fn=None, p_ckpt=0.3, p_bad=0.35, prox_noobj_ok=Fals
     if rng.random() < p_ckpt and ops:
         for _ in range(rng.choice([1, 1, 2])):
             ops.insert(rng.randint(1, len(ops)), {"op": "ckpt", "how": rng.choice(["pickle", "pickle", "deepcopy", "copy-chain"])})
+    objfield = "o" in case.get("layout", "") or "t" in case.get("layout", "")
+    if case.get("kind") == "sb" and objfield:
+        p_bad = max(p_bad, 0.7)     # SlidingBoundariesArchive.add inserts row by row: a defect of a LATER row of a batch
     if rows_fn is not None and rng.random() < p_bad and ops:
         import faultlib
         for _ in range(rng.choice([1, 1, 2])):
@@ -433,7 +436,9 @@ def sprinkle(rng, case, rows_fn=None, p_ckpt=0.3, p_bad=0.35, prox_noobj_ok=Fals
                 want_obj = ("o" in case["layout"] or "t" in case["layout"]) and rng.random() < 0.6
                 for _try in range(200):
                     if fault["entry"] in ("add", "add_single") and fault["arg"] == "extra" and (
-                            not want_obj or fault["kind"] in ("objseq", "ragged")):
+                            not want_obj or fault["kind"] in ("objseq", "ragged")) and (
+                            not (want_obj and case.get("kind") == "sb") or (
+                                fault["entry"] == "add" and len(fault["rows"]) >= 2 and fault["pos"] >= 1)):
                         break
                     fault = faultlib.gen_fault(rng, case.get("layout", ""), rows_fn, prox_noobj_ok=prox_noobj_ok)
             ops.insert(rng.randint(0, max(0, len(ops) - 1)), fault)
